@@ -121,7 +121,7 @@ func runC08(r *Runner, g *Gen, tier string) string {
 			}
 		}
 	}
-	n := scale(tier, 5000, 250000)
+	n := scale(tier, 5000, 600000)
 	for i := 0; i < n; i++ {
 		cfg := g.pickCfg()
 		var t *TyDef
